@@ -188,10 +188,10 @@ def run(prog: Program, res: Result, tier: str) -> None:
     # scratch buffer holds (gulp - maxdelay)*nsub
     alloc = op.allocation(out.id, call) if isinstance(out, ast.Name) else None
     key = "subband:scratch"
-    if alloc is not None and alloc.args and op.poly(alloc.args[0], alloc, stop={op.gulp_name(lp)}) == stride * nsub:
-        res.ok("R5", fn, alloc, "sub-band scratch buffer holds (gulp - maxdelay)*nsub values: one full block", key=key)
+    if alloc is not None and alloc.args and op.poly(alloc.args[0], alloc, stop={op.gulp_name(lp)}) in (stride * nsub, G * nsub):
+        res.ok("R5", fn, alloc, "sub-band scratch buffer holds at least (gulp - maxdelay)*nsub values: one full block", key=key)
     else:
-        res.bad("R5", fn, alloc or fn.node, "sub-band scratch buffer is not (gulp - maxdelay)*nsub long", key=key, construct="out_ar")
+        res.bad("R5", fn, alloc or fn.node, "sub-band scratch buffer is not provably >= (gulp - maxdelay)*nsub long", key=key, construct="out_ar")
 
     # ---- extract_samps / requantize: identity -------------------------------------------------------------------
     for name in ("extract_samps", "requantize"):
@@ -376,6 +376,8 @@ MUTANTS = [
      "old": "                chan_to_sub,\n                max_delay,\n", "new": "                chan_to_sub,\n                0,\n"},
 ]
 TWINS = [
+    {"id": "c07-twin-subband-roomy-scratch", "file": B,
+     "old": "        out_ar = np.empty((gulp - max_delay) * nsub, dtype=\"float32\")", "new": "        out_ar = np.empty(gulp * nsub, dtype=\"float32\")"},
     {"id": "c07-twin-ds-temp", "file": B,
      "old": "            out_file.cwrite(write_ar)\n        return outfile_name", "new": "            out_file.cwrite(write_ar)\n        out_file.close()\n        return outfile_name"},
     {"id": "c07-twin-zerodm-len-temp", "file": B,
